@@ -249,6 +249,15 @@ def run_pipeline(case, ctx):
                 c.close()
             irregular = not (structured or stg.is_2d)
             src = sgy.read_source(sgyp, ignore_geometry=stg.is_2d or irregular)
+            # the exported sample axis is the stage's, whenever SEG-Y can state it (whole-millisecond start within
+            # 16 bits, whole-microsecond interval within 15 bits)
+            z = np.asarray(stg.samples, dtype=np.float64)
+            if len(z) > 1:
+                dt = 1000.0 * (z[1] - z[0])
+                if abs(z[0] - round(z[0])) < 1e-9 and abs(z[0]) <= 32767 and abs(dt - round(dt)) < 1e-6 and 1 <= round(dt) <= 32767:
+                    e = np.asarray(src["samples"], dtype=np.float64)
+                    if len(e) != len(z) or (np.abs(e - z) > 1e-6 + 1e-9 * np.abs(z)).any():
+                        raise Violation(f"exported-sample-axis:stage{k + 1}", f"stage axis {z[:3]}.., exported SEG-Y {e[:3]}..")
             conv.segy_convert(sgyp, nxt, stg.rate, stg.bs, header_detection="exhaustive")
             common = dict(samples=src["samples"], headers=src["headers"], tracecount=src["tracecount"], rate=stg.rate,
                           bs=stg.bs, versions=cur_version, source_code=0, detection_code=20,
